@@ -3,6 +3,7 @@ from core import strip, is_field, key_str, key_mentions, order_ge
 from facts import AnalysisBroken
 from rules import (check_init, nodeset, callpred, ev, Unevaluable, forced_edges, atom_from, one, some, reach, atomic_ops,
                    ret_const, is_param_load, is_var_load, field_of)
+from props import c01
 import stale
 
 EXPLANATION = (
@@ -170,6 +171,8 @@ def check_handoff(ctx, P):
         p = p.parent
     if p is not None and p.k == "BinaryOperator" and p.op == "=":
         outvar = strip(p.kids[0]).did
+    elif p is not None and p.k == "DeclStmt":
+        outvar = ([dc["did"] for dc in p.d["decls"] if dc.get("init") is not None and f.nodes[dc["init"]].contains(pops[0])] or [None])[0]
     wc = [d for d, i in f.local_by_did.items() if i["name"] == "wake_count"]
     if outvar is None or not wc:
         raise AnalysisBroken("wake_from_mpsc_queue: result / wake_count variables not found")
@@ -244,6 +247,9 @@ def check_consumer(ctx, P):
 
 def run(ctx):
     P = ctx.prog()
+    c01.core_dependency(ctx, P, "core.dep", ('fiber_manager_wait_in_mpsc_queue', 'fiber_manager_wait_in_mpsc_queue_and_unlock', 'fiber_manager_wake_from_mpsc_queue', 'fiber_mutex_lock', 'fiber_mutex_unlock', 'fiber_mutex_unlock_internal', 'fiber_mutex_trylock'),
+                        "the mutex's sleep/wake path (wait_in_mpsc_queue / wake_from_mpsc_queue)",
+                        'a waiter resumed before its context is saved, or never scheduled, breaks mutual exclusion or strands the lock')
     check_lock(ctx, P)
     check_trylock(ctx, P)
     check_unlock(ctx, P)
